@@ -7,6 +7,8 @@
 (*     before 2.2 the first event of a frame is a Pre),                     *)
 (*   - unknown (but declared) events anywhere after Game Start,             *)
 (*   - junk bytes after Game End inside the raw element,                    *)
+(*   - unknown (declared) events after Game End too, before and after its   *)
+(*     duplicate,                                                           *)
 (*   - Game End absent, metadata absent.                                    *)
 (* Pass 1 feeds such a history to the parser and takes the writer's         *)
 (* re-emission E1.  Pass 2 feeds E1 to a fresh parser.  Invariants: the     *)
@@ -15,13 +17,15 @@
 (***************************************************************************)
 EXTENDS SlpWriter, TLC, Json, SequencesExt
 
-CONSTANTS MaxFrames, MaxItems, MaxUnk, IdSteps, EndChoices, MetaChoices, JunkChoices
+CONSTANTS MaxFrames, MaxItems, MaxUnk, IdSteps, EndChoices, MetaChoices, JunkChoices,
+          TailUnkChoices   \* how many unknown events may follow Game End (and its duplicate)
 
 VARIABLES hist, todo, emitted, curId, inFrame, nframes, nunk, phase, fileEnd, meta, junk, quirk,
+          tailUnk, \* <<unknown events between Game End and its duplicate (or the end), unknown events after the duplicate>>
           saved,   \* snapshot after pass 1: the game, the quirk and the emission E1
           queue    \* pass 2: events of E1 still to be fed
 
-tvars == <<hist, todo, emitted, curId, inFrame, nframes, nunk, phase, fileEnd, meta, junk, quirk, saved, queue>>
+tvars == <<hist, todo, emitted, curId, inFrame, nframes, nunk, phase, fileEnd, meta, junk, quirk, tailUnk, saved, queue>>
 vars == <<pvars, tvars>>
 
 E(k, id, p, f, x) == [k |-> k, id |-> id, p |-> p, f |-> f, x |-> x, tok |-> Len(hist) + 1]
@@ -34,6 +38,9 @@ TInit ==
     /\ fileEnd \in EndChoices /\ meta \in MetaChoices
     \* junk is "extra bytes after Game End": there is none without a Game End
     /\ junk \in (IF fileEnd = "none" THEN {0} ELSE JunkChoices)
+    /\ tailUnk \in (IF fileEnd = "none" THEN {<<0, 0>>}
+                    ELSE IF fileEnd = "single" THEN {<<a, 0>> : a \in TailUnkChoices}
+                    ELSE TailUnkChoices \X TailUnkChoices)
     /\ saved = <<>> /\ queue = <<>>
 
 Feed(e) == hist' = Append(hist, e) /\ Step(e)
@@ -57,7 +64,7 @@ NewFrame ==
            /\ todo' = Body(present, nitems) /\ emitted' = {} /\ curId' = id /\ inFrame' = TRUE
            /\ IF V22 THEN Feed(E("fs", id, 0, 0, 0)) ELSE UNCHANGED <<pvars, hist>>
     /\ nframes' = nframes + 1
-    /\ UNCHANGED <<nunk, phase, fileEnd, meta, junk, quirk, saved, queue>>
+    /\ UNCHANGED <<nunk, phase, fileEnd, meta, junk, quirk, tailUnk, saved, queue>>
 
 EmitBody ==
     /\ phase = "frames" /\ inFrame
@@ -65,36 +72,38 @@ EmitBody ==
          /\ CanEmit(d)
          /\ Feed(E(d[1], curId, d[2], d[3], 0))
          /\ todo' = todo \ {d} /\ emitted' = emitted \cup {d}
-    /\ UNCHANGED <<curId, inFrame, nframes, nunk, phase, fileEnd, meta, junk, quirk, saved, queue>>
+    /\ UNCHANGED <<curId, inFrame, nframes, nunk, phase, fileEnd, meta, junk, quirk, tailUnk, saved, queue>>
 
 EndFrame ==
     /\ phase = "frames" /\ inFrame /\ todo = {}
     /\ IF V30 THEN Feed(E("fe", curId, 0, 0, 0)) ELSE UNCHANGED <<pvars, hist>>
     /\ inFrame' = FALSE
-    /\ UNCHANGED <<todo, emitted, curId, nframes, nunk, phase, fileEnd, meta, junk, quirk, saved, queue>>
+    /\ UNCHANGED <<todo, emitted, curId, nframes, nunk, phase, fileEnd, meta, junk, quirk, tailUnk, saved, queue>>
 
 \* an unknown event, anywhere
 Unknown ==
     /\ phase = "frames" /\ nunk < MaxUnk
     /\ Feed(E("unk", 0, 0, 0, UnknownCode))
     /\ nunk' = nunk + 1
-    /\ UNCHANGED <<todo, emitted, curId, inFrame, nframes, phase, fileEnd, meta, junk, quirk, saved, queue>>
+    /\ UNCHANGED <<todo, emitted, curId, inFrame, nframes, phase, fileEnd, meta, junk, quirk, tailUnk, saved, queue>>
 
 GameEnd ==
     /\ phase = "frames" /\ ~inFrame
     /\ IF fileEnd = "none" THEN UNCHANGED <<pvars, hist>> ELSE Feed(E("ge", 0, 0, 0, 0))
     /\ phase' = "tail"
-    /\ UNCHANGED <<todo, emitted, curId, inFrame, nframes, nunk, fileEnd, meta, junk, quirk, saved, queue>>
+    /\ UNCHANGED <<todo, emitted, curId, inFrame, nframes, nunk, fileEnd, meta, junk, quirk, tailUnk, saved, queue>>
 
 GameSnapshot == <<ids, pre, post, fstart, fend, items, off, gend, gecko, gactual>>
 
-\* the reader's tail: a duplicated Game End is recognised only when nothing else follows the first
+\* the reader's tail: it walks the declared events that follow the first Game End; a Game End among them is the
+\* duplicate, unknown events are skipped as anywhere else; bytes that are no declared event are junk, and with junk
+\* nothing is recognised
 ReadTail1 ==
     /\ phase = "tail"
     /\ Finalize
     /\ quirk' = (fileEnd = "double" /\ junk = 0)
     /\ phase' = "emit"
-    /\ UNCHANGED <<hist, todo, emitted, curId, inFrame, nframes, nunk, fileEnd, meta, junk, saved, queue>>
+    /\ UNCHANGED <<hist, todo, emitted, curId, inFrame, nframes, nunk, fileEnd, meta, junk, tailUnk, saved, queue>>
 
 \* take the writer's emission, start pass 2 on a fresh parser
 StartPass2 ==
@@ -107,13 +116,13 @@ StartPass2 ==
     /\ gend' = 0 /\ gecko' = <<>> /\ gactual' = 0 /\ acc' = <<>> /\ accActual' = 0
     /\ nev' = 0 /\ status' = "run" /\ reason' = ""
     /\ phase' = "pass2"
-    /\ UNCHANGED <<hist, todo, emitted, curId, inFrame, nframes, nunk, fileEnd, meta, junk, quirk>>
+    /\ UNCHANGED <<hist, todo, emitted, curId, inFrame, nframes, nunk, fileEnd, meta, junk, quirk, tailUnk>>
 
 Pass2Feed ==
     /\ phase = "pass2" /\ queue # <<>> /\ status = "run"
     /\ Step(Head(queue))
     /\ queue' = Tail(queue)
-    /\ UNCHANGED <<hist, todo, emitted, curId, inFrame, nframes, nunk, phase, fileEnd, meta, junk, quirk, saved>>
+    /\ UNCHANGED <<hist, todo, emitted, curId, inFrame, nframes, nunk, phase, fileEnd, meta, junk, quirk, tailUnk, saved>>
 
 \* pass 2's tail: whatever is left after the first Game End is the duplicate (or nothing)
 ReadTail2 ==
@@ -121,7 +130,7 @@ ReadTail2 ==
     /\ Finalize
     /\ quirk' = (Len(queue) = 1 /\ queue[1].k = "ge")
     /\ phase' = "done"
-    /\ UNCHANGED <<hist, todo, emitted, curId, inFrame, nframes, nunk, fileEnd, meta, junk, saved, queue>>
+    /\ UNCHANGED <<hist, todo, emitted, curId, inFrame, nframes, nunk, fileEnd, meta, junk, tailUnk, saved, queue>>
 
 Next == NewFrame \/ EmitBody \/ EndFrame \/ Unknown \/ GameEnd \/ ReadTail1 \/ StartPass2 \/ Pass2Feed \/ ReadTail2
 Spec == TInit /\ [][Next]_vars
@@ -149,7 +158,7 @@ TInv == TypeOK /\ NeverRejects /\ DeclaredIsEmitted /\ FixedPoint /\ NoUnknownEm
 ColJson(col) == [n \in 1..Len(CharSeq) |-> [p |-> CharSeq[n][1], f |-> CharSeq[n][2], toks |-> col[CharSeq[n]]]]
 BehJson ==
     [ reg |-> Regime, occ |-> [p \in 1..4 |-> Occ[p - 1]],
-      hist |-> hist, file_end |-> fileEnd, meta |-> meta, junk |-> junk,
+      hist |-> hist, file_end |-> fileEnd, meta |-> meta, junk |-> junk, tail_unk |-> tailUnk,
       fin |-> [ ids |-> ids, pre |-> ColJson(pre), post |-> ColJson(post), fstart |-> fstart, fend |-> fend,
                 items |-> items, off |-> off, gend |-> gend, gecko |-> gecko, gactual |-> gactual,
                 quirk |-> quirk, nev |-> nev ],
